@@ -420,6 +420,14 @@ impl<C: Config> Engine<C> {
         // this is a good yield point for possible cancellation
         self.yielder.tick().await;
 
+        // A dependency that the calling executor did not read in its previous
+        // execution is not covered by the transitive firewall repair done for
+        // the root of this request: dirty propagation may have stopped at a
+        // firewall below the callee, so its clean edges prove nothing and it
+        // has to be repaired pedantically.
+        let pedantic_caller = caller.pedantic_for_new_callee(&query.id);
+        let caller = pedantic_caller.as_ref().unwrap_or(caller);
+
         // register the dependency for the sake of detecting cycles
         let undo_register = self.register_callee(caller, &query.id);
 
